@@ -7,9 +7,15 @@ from harness import worlds
 
 PROP = "C13"
 LEAN_MODULE = "Ztr.Props.C13B"
-LEAN_DEPS = ["Ztr.Props.C13"]
+LEAN_DEPS = ["Ztr.Props.C13", "Ztr.Props.C13Streams"]
 THEOREMS = ['Ztr.Result.C13_restored_between_tests', 'Ztr.Result.C13_never_replaced', 'Ztr.Result.C13_quiet_when_ok',
-            'Ztr.Result.C13_attributed_test', 'Ztr.Result.C13_attribution', 'Ztr.Result.C13_failing_shown']
+            'Ztr.Result.C13_attributed_test', 'Ztr.Result.C13_attribution', 'Ztr.Result.C13_failing_shown',
+            # the level below: stream objects (Model/Streams), any history of runner operations and of what test code
+            # does to the streams
+            'Ztr.Streams.C13S_never_raises', 'Ztr.Streams.C13S_restore_clean', 'Ztr.Streams.C13S_restore_clean_flag',
+            'Ztr.Streams.C13S_between_tests', 'Ztr.Streams.C13S_drained', 'Ztr.Streams.C13S_returns_content',
+            'Ztr.Streams.C13S_write', 'Ztr.Streams.C13S_no_buffer', 'Ztr.Streams.C13S_D35_witness',
+            'Ztr.Streams.C13S_D35b_witness', 'Ztr.Streams.C13S_D35c_witness']
 RULE = ("worlds whose tests write unique tokens to sys.stdout / sys.stderr / .buffer, with and without trailing "
         "newline, in every phase; all 17 outcome kinds incl. tests producing several result events, in random "
         "sequences; --buffer on and off; layer testSetUp/testTearDown hooks record whether the std streams are the "
@@ -186,6 +192,9 @@ def gen_cases(ctx):
 
 
 def run(ctx):
+    # the capture code as a state machine over stream objects: real TestResult methods against Model/Streams
+    from harness import corr_streams
+    corr_streams.run_streams(ctx)
     cw.standard_check(ctx, cw.corpus_cases(PROP) + gen_cases(ctx), PROP, KINDS, "runner.streams", make_monitor(ctx), extra=tokens_vs_model)
 
 
